@@ -33,8 +33,12 @@ MANIFEST = {
             "of each calculate is TRANSLATED statement by statement into a small imperative language and proved, for all inputs, to "
             "compute what the component model computes (semantic tie: a meaning-preserving refactoring passes, a change of meaning "
             "refutes the theorem); access_from_nested_dict is translated the same way (recursion included) and proved equal to the "
-            "model's look-up for every value and key list; literal defaults; blunt text flags for the remaining hand-transcribed "
-            "functions. Differential rig R-rew "
+            "model's look-up for every value and key list; RewardFunction.update (for loop, total += weight * calculate) and the loop of "
+            "PrimaiteGame.update_agents (order and step_counter guards of update_reward / save_reward_to_history / total += current) are "
+            "translated too and proved equal to the model for every component behaviour / every game — which is also the contract a "
+            "plugin component gets: the step reward is the weighted left fold of whatever its calculate returns, its exception ends the "
+            "step; literal defaults; blunt text flags only for setup_reward_sharing, the two graph functions, __init__ / "
+            "register_component and the two one-line agent methods. Differential rig R-rew "
             "through the real PrimaiteGame.from_config (every sharing graph on <= 4 agents; several shares per agent; cycles of every "
             "length incl. self-sharing), the real science.py functions on EVERY graph with <= 4 nodes incl. self-loops and repeated "
             "neighbours (thorough: every loop-free graph on 5 nodes), real update_agents on synthetic state dictionaries (also leaves "
